@@ -1,6 +1,6 @@
 \* job hllunion_serde (C09): the same traces with the serialization clauses enforced
 SPECIFICATION TUSpec
-CONSTANTS Ids = {} LgKs = {} Coupons = {} Bigs = {} TrackFed = FALSE Strict09 = TRUE SkPrefix = "C03:"
+CONSTANTS Ids = {} LgKs = {} Coupons = {} Bigs = {} TrackFed = FALSE CheckDesign = FALSE Strict09 = TRUE SkPrefix = "C03:"
 INVARIANT TInv
 POSTCONDITION Accepted
 CHECK_DEADLOCK FALSE
